@@ -3,9 +3,11 @@
    (all 256 values: finite domain decided by vm_compute and lifted with forallb_forall); for byte lists of every
    length, packing what was unpacked returns the bytes (flat form and 1-D arrays incl. shape); a short final group is
    zero padded; unpacking multiplies the flat length by eight; the binary representation parses back (two's complement
-   for negatives).  NOT YET PROVED: the along-an-axis forms (they are the 1-D form applied per lane through
-   apply_along_axis, see C08); checked by the correspondence run on every axis of rank <= 3 byte arrays. *)
-From ArrRs Require Import Index Axis Bits Bits_proofs.
+   for negatives); ALONG AN AXIS of an array of any rank (via the lane theorem of C08): unpacking multiplies the axis
+   length by eight and every lane of the result is the unpacking of the corresponding lane; packing divides it by
+   eight (rounded up) and packs every lane; unpacking then packing along the same axis returns the array.
+   MODELLED, NOT PROVED: the `count` argument of unpack_bits along an axis (checked by the correspondence run). *)
+From ArrRs Require Import Index Axis Axis_proofs Broadcast_proofs Reduce Along_proofs Bits Bits_proofs Along_uses.
 
 Theorem C19_byte : forall o b, (0 <= b < 256)%Z ->
   pack8 o (unpack8 o b) = b /\ length (unpack8 o b) = 8 /\
@@ -38,3 +40,33 @@ Example C19_nonvacuous :
   unpack8 Big 6%Z = [0;0;0;0;0;1;1;0]%Z /\ unpack8 Little 6%Z = [0;1;1;0;0;0;0;0]%Z /\
   pack_flat Big [1;0;1]%Z = [160]%Z /\ binary_repr 8 (-3)%Z = [1;1;1;1;1;1;0;1]%Z.
 Proof. repeat split; vm_compute; reflexivity. Qed.
+
+(* along an axis *)
+Theorem C19_unpack_axis : forall (a : arr Z) z o,
+  wf a -> pos_shape (shape a) -> (Z.of_nat (ndim a) < two64)%Z -> axis_ok (ndim a) z ->
+  let ax := norm_nat (ndim a) z in
+  exists R, unpack_bits a (Some z) None (Ok o) = Ok R /\ wf R /\
+    shape R = upd (shape a) ax (nth ax (shape a) 0 * 8) /\
+    forall c, in_range (shape R) c ->
+      get 0%Z R c = nth (nth ax c 0) (unpack_flat o (elems (lane 0%Z a ax (remove_nth c ax)))) 0%Z.
+Proof. exact unpack_axis_spec. Qed.
+
+Theorem C19_pack_axis : forall (a : arr Z) z o,
+  wf a -> pos_shape (shape a) -> (Z.of_nat (ndim a) < two64)%Z -> axis_ok (ndim a) z ->
+  let ax := norm_nat (ndim a) z in
+  exists R, pack_bits a (Some z) (Ok o) = Ok R /\ wf R /\
+    shape R = upd (shape a) ax ((nth ax (shape a) 0 + 7) / 8) /\
+    forall c, in_range (shape R) c ->
+      get 0%Z R c = nth (nth ax c 0) (pack_flat o (elems (lane 0%Z a ax (remove_nth c ax)))) 0%Z.
+Proof. exact pack_axis_spec. Qed.
+
+Theorem C19_roundtrip_axis : forall (a : arr Z) z o,
+  wf a -> pos_shape (shape a) -> (Z.of_nat (ndim a) < two64)%Z -> axis_ok (ndim a) z ->
+  Forall (fun b => (0 <= b < 256)%Z) (elems a) ->
+  exists u, unpack_bits a (Some z) None (Ok o) = Ok u /\ pack_bits u (Some z) (Ok o) = Ok a.
+Proof. exact pack_unpack_axis. Qed.
+
+Example C19_axis_nonvacuous :
+  unpack_bits (mk [1;2;3;4]%Z [2;2]) (Some (-2)%Z) None (Ok Little) =
+    Ok (mk [1;0; 0;1; 0;0; 0;0; 0;0; 0;0; 0;0; 0;0; 1;0; 1;0; 0;1; 0;0; 0;0; 0;0; 0;0; 0;0]%Z [16;2]).
+Proof. vm_compute. reflexivity. Qed.
